@@ -82,6 +82,10 @@ pub struct Cmd {
     /// replace the value of one option (named by its short form) by arbitrary text (refusal tests)
     #[serde(default)]
     pub override_opt: Option<(String, String)>,
+    /// environment of executable runs: bits 0-1 RAYON_NUM_THREADS unset/1/2/7, bit 2 relative paths from the
+    /// scratch directory as working directory, bit 3 a Turkish locale, bit 4 a bare environment (PATH only)
+    #[serde(default)]
+    pub env_profile: u8,
 }
 
 /// pushes options in the generated spelling
@@ -159,6 +163,7 @@ impl Cmd {
             spell: 0,
             omit_defaults: false,
             override_opt: None,
+            env_profile: 0,
         }
     }
 
@@ -302,9 +307,35 @@ pub fn run_via_py_entry(cmd: &Cmd, input: &Path, alt: Option<&Path>, out: &Path,
 
 fn run_via_program(cmd: &Cmd, input: &Path, alt: Option<&Path>, out: &Path, stdin_data: Option<&[u8]>, py: bool) -> Outcome {
     let alt_s = alt.map(io::path_str);
-    let args = cmd.args(&io::path_str(input), alt_s.as_deref(), &io::path_str(out));
+    let mut args = cmd.args(&io::path_str(input), alt_s.as_deref(), &io::path_str(out));
     let sd = if cmd.stdin { stdin_data } else { None };
+    let p = cmd.env_profile;
+    let mut vars: Vec<(String, String)> = Vec::new();
+    match p & 3 {
+        1 => vars.push(("RAYON_NUM_THREADS".into(), "1".into())),
+        2 => vars.push(("RAYON_NUM_THREADS".into(), "2".into())),
+        3 => vars.push(("RAYON_NUM_THREADS".into(), "7".into())),
+        _ => {}
+    }
+    if p & 8 != 0 {
+        vars.push(("LC_ALL".into(), "tr_TR.UTF-8".into()));
+        vars.push(("LANG".into(), "tr_TR.UTF-8".into()));
+    }
+    let cwd = if p & 4 != 0 {
+        // every path below the scratch directory is passed relative to it
+        input.parent().map(|d| {
+            let prefix = format!("{}/", io::path_str(d));
+            for a in args.iter_mut() {
+                *a = a.replace(&prefix, "");
+            }
+            d.to_path_buf()
+        })
+    } else {
+        None
+    };
+    crate::cli::set_run_env(vars, p & 16 != 0 && !py, cwd);
     let r: CliOut = if py { crate::cli::run_py_entry(&args, sd, 120) } else { run_cli(&args, sd, 120) };
+    crate::cli::set_run_env(Vec::new(), false, None);
     let mut o = Outcome {
         code: r.code,
         signal: r.signal,
